@@ -478,6 +478,10 @@ func envUnpickler(module, name string, args starlark.Tuple) (starlark.Value, err
 	}
 }
 
+// makeDictFromAssociationList turns a list of (name, value) pairs into a dictionary from each name to
+// (position, value). The position is part of the entry because compiled code refers to globals, free
+// variables, predeclared and universal names by position: two lists that hold the same pairs in
+// another order belong to different programs, and dictionaries compare without regard to order.
 func makeDictFromAssociationList(al starlark.Value) starlark.Value {
 	pairs, ok := al.(starlark.Tuple)
 	if !ok {
@@ -485,9 +489,9 @@ func makeDictFromAssociationList(al starlark.Value) starlark.Value {
 	}
 
 	dict := starlark.NewDict(len(pairs))
-	for _, pv := range pairs {
+	for i, pv := range pairs {
 		pair := pv.(starlark.Tuple)
-		dict.SetKey(pair[0].(starlark.String), pair[1])
+		dict.SetKey(pair[0].(starlark.String), starlark.Tuple{starlark.MakeInt(i), pair[1]})
 	}
 	return dict
 }
